@@ -148,6 +148,25 @@ def marker_len_case():
         return (n, v, dict(judged=3))
     return case, 10
 
+def long_path_case():
+    """folders of 100..3000 bytes (nested 200-character components): search path and relative transclude base"""
+    LENS = (100, 500, 900, 1000, 1020, 1030, 1100, 1500, 2000, 3000)
+    def case(idx):
+        if _dir is None: worker_init()
+        n = LENS[idx]; comps = []; left = n
+        while left > 0: k = min(200, left); comps.append("d" * k); left -= k + 1
+        deep = os.path.join(_dir, "lp%d" % idx, *comps); os.makedirs(os.path.join(deep, "base"), exist_ok=True)
+        open(os.path.join(deep, "inc.txt"), "wb").write(b"INC-text\n"); open(os.path.join(deep, "base", "b.txt"), "wb").write(b"BASE-text\n")
+        top = os.path.join(deep, "top.txt"); v = []
+        for shape, src, exp, wantman in (("search-path", b"pre {{inc.txt}} post\n", b"pre INC-text\n post\n", "inc.txt"), ("transclude-base", b"transclude base: base\n\npre {{b.txt}} post\n", b"transclude base: base\n\npre BASE-text\n post\n", "base/b.txt")):
+            open(top, "wb").write(src)
+            got, man = mmd.transclude(src, deep.encode(), top.encode(), 0)
+            if got != exp: v.append(("transclude:long-folder:%s" % shape, "folder of %d bytes: result %r" % (len(deep), got[-60:]), dict(folder_len=len(deep))))
+            elif not any(m.endswith(wantman) and os.path.exists(m) for m in man): v.append(("transclude:long-folder:%s:manifest" % shape, "folder of %d bytes: manifest %r" % (len(deep), [m[-40:] for m in man]), dict(folder_len=len(deep))))
+        shutil.rmtree(os.path.join(_dir, "lp%d" % idx), ignore_errors=True)
+        return (n, v, dict(judged=2))
+    return case, len(LENS)
+
 def cli_leg(rep, tier):
     """the command-line tool: `multimarkdown -t mmd a.txt` prints the transcluded text; main.c resolves the folder and the absolute path itself"""
     import subprocess, time
@@ -199,6 +218,9 @@ def run(tier):
     pmap.fold(rep, "include-graphs", n, res, "%d include graphs x 4 formats" % len(graphs))
     case, n2 = marker_len_case()
     res = pmap.pmap(n2, case, workers=2)
+    case3, n3 = long_path_case()
+    res3 = pmap.pmap(n3, case3, workers=4, deadline_s=dl * 0.2)
+    pmap.fold(rep, "folder-length", n3, res3, "folders of 100..3000 bytes as search path and under a relative transclude base: substitution and manifest")
     pmap.fold(rep, "marker-length", n2, res, "markers of 10..5000 bytes around the 1000-byte cap")
     cli_leg(rep, tier)
     rep.add_sample(dict(files={"a.txt": "F0-start\n\n{{b.txt}}\n\n{{w.*}}\n\nF0-end\n", "b.txt": "F1-start\n\n{{a.txt}}\n\nF1-end\n"}, format="html", note="2-cycle: must terminate"))
